@@ -448,7 +448,7 @@ pub fn generate(thorough: bool, seed: u64, out: &mut dyn Write) {
             let n = s.bytes.len();
             for b in s.bounds.clone() {
                 if b > 0 && b <= n {
-                    emit(out, s.op, &s.bytes[..b - 1], &s.extra);
+                    emit(out, &s.op, &s.bytes[..b - 1], &s.extra);
                 }
             }
             mutate_fields_only(&s, &mut rng, out);
@@ -469,7 +469,7 @@ pub fn generate(thorough: bool, seed: u64, out: &mut dyn Write) {
                 let v = if rng.chance(1, 3) { rng.below(1 << (8 * f.width as u64).min(16)) } else { *rng.pick(&vs) };
                 put(&mut m, &f, v);
             }
-            emit(out, s.op, &m, "");
+            emit(out, &s.op, &m, "");
         }
     }
     let n = if thorough { 400 } else { 40 };
@@ -511,13 +511,13 @@ pub fn generate(thorough: bool, seed: u64, out: &mut dyn Write) {
 
 /// the whole seed plus every single-field corruption (no truncations / flips)
 fn mutate_fields_only(seed: &Seed, rng: &mut Rng, out: &mut dyn Write) {
-    emit(out, seed.op, &seed.bytes, &seed.extra);
+    emit(out, &seed.op, &seed.bytes, &seed.extra);
     for f in &seed.fields {
         let cur = get(&seed.bytes, f);
         for v in corrupt_values(cur, f.width) {
             let mut m = seed.bytes.clone();
             put(&mut m, f, v);
-            emit(out, seed.op, &m, &seed.extra);
+            emit(out, &seed.op, &m, &seed.extra);
         }
     }
 }
